@@ -485,7 +485,7 @@ where
 // ------------------------------------------------------------------ persistent backends (thorough)
 
 fn scratch_dir(tag: &str, n: usize) -> PathBuf {
-    let base = if std::path::Path::new("/dev/shm").is_dir() { PathBuf::from("/dev/shm") } else { std::env::temp_dir() };
+    let base = vkit::scratch_base();
     let p = base.join(format!("verif-c07-{}-{tag}-{n}", std::process::id()));
     let _ = std::fs::remove_dir_all(&p);
     std::fs::create_dir_all(&p).expect("scratch dir");
